@@ -246,6 +246,31 @@ func c10Oracle(w *World, c *c10Ctl) *Violation {
 				}
 			}
 		}
+		// once the finalizer has been taken off a parent that is pending deletion, nothing
+		// is created, updated or deleted for it any more (the parent may be gone the next
+		// moment, and nobody would retry a write that fails)
+		removalAt := -1
+		for _, q := range sy.Reqs {
+			if removalAt < 0 && isParentRes(q.Res) && q.Verb == "update" && q.Sub == "" && accepted(q) && q.Pre != nil {
+				pre := mustParse(q.Pre)
+				gone := q.Post == nil
+				if !gone {
+					gone = !hasFinalizer(mustParse(q.Post), c.finalizer)
+				}
+				if hasFinalizer(pre, c.finalizer) && gone && metaRO(pre)["deletionTimestamp"] != nil {
+					removalAt = q.Arrival
+				}
+				continue
+			}
+			if removalAt >= 0 && q.Arrival > removalAt && q.IsWrite() && isChildRes(q.Res) && q.Fault != "cancelled" {
+				sig := copySig(c.sig)
+				sig["kind"] = c.kind
+				if v := report(&Violation{Prop: "C10", Class: "child-written-after-finalizer-removed", Sig: sig, Step: q.Step,
+					Detail: fmt.Sprintf("%s: %s was sent after the finalizer had been removed from the parent, which is pending deletion", where, q.Short())}); v != nil {
+					return v
+				}
+			}
+		}
 		// (a) with a finalize hook, the finalizer is on the parent before any child is created for it
 		if knownVer && finalizeOn {
 			for _, q := range sy.Reqs {
@@ -330,7 +355,7 @@ func C10Scenario() *Scenario {
 		var scripted []Stage
 		b := &EnvBudget{Left: 4 + t.Pick(8, "envbudget")}
 		if t.Pick(3, "ckind") == 2 {
-			ds := NewDecoratorSetup(w, DGenOpts{MaxDecorators: 1, Finalize: 1})
+			ds := NewDecoratorSetup(w, DGenOpts{MaxDecorators: 1, Finalize: 1, AtOnce: true})
 			cfg := ds.Cfgs[0]
 			parents = ds.Targets
 			ctl = &c10Ctl{kind: "decorator", name: cfg.Name, parentKey: "object", childKey: "attachments", finalizer: cfg.FinalizerName(),
@@ -353,6 +378,7 @@ func C10Scenario() *Scenario {
 			s := NewCompositeSetup(w, GenOpts{AllowCluster: true, MaxWorkers: 2, MaxParents: 2, Finalize: 1, AvoidKnown: true, Methods: []string{"InPlace", "Recreate", "", "RollingInPlace"}})
 			cfg := s.Cfg
 			s.TP.Teardown = t.Pick(2, "teardown") == 1
+			s.TP.FinalizeAtOnce = !s.TP.Teardown && t.Pick(3, "atonce") == 2
 			if t.Pick(3, "holdvariant") == 2 {
 				// finalize answers depend on a revisioned field; a rollout that can stall keeps old revisions alive
 				s.TP.FinalizeHold = true
